@@ -64,6 +64,26 @@ CHECKS = {
             "zero bytes, both parities) on both networks is decoded with independent Base58Check/Bech32 decoders and compared with "
             "hashes of hand-assembled script templates; RIPEMD-160/HASH160 compared with OpenSSL for every length 0..1024 x 4 patterns.",
             "DESIGN.md §4 C05", ""),
+    "C07": ("exploration", "E1 product",
+            "bounded exhaustive product of all 12 versions x field boundary values x 3 input forms vs reference serialiser",
+            "Every combination of the twelve SLIP-132 versions with boundary depths, child numbers, fingerprints, chain codes and "
+            "keys is serialised by the reference, parsed by the real code from str/bytes/BytesIO, compared field by field, "
+            "re-serialised and compared with the identical 111-character string; unknown versions must be refused; public "
+            "serialisations must carry the reference compressed key and not the scalar.",
+            "DESIGN.md §4 C07", ""),
+    "C01": ("model_checking", "E2 bfs",
+            "explicit-state BFS over the derivation tree on the real nodes + full product of single steps incl. chosen-output PRF corners, every state compared with reference CKDpriv",
+            "Breadth-first search of the derivation tree below seed-built and parsed roots (transitions = real ckd calls on the "
+            "walked node objects; every state's fields and xprv/xpub strings compared with an independent CKDpriv; derive_path "
+            "must land on the same state), plus the full product parent scalar x chain code x depth x index x PRF mode for single "
+            "steps. Complete within the alphabets and depth bound; scalars outside the alphabets are not covered.",
+            "DESIGN.md §4 C01", "the model is a functional reference; each transition is an execution of the implementation compared with it (traces_validated = transitions)"),
+    "C02": ("model_checking", "E2 bfs",
+            "explicit-state BFS over (private node, public node) pairs on the real code, PRF corner enumeration, refusal grid; every state compared with reference CKDpub",
+            "BFS over pairs of real private/public nodes grown from the same root by the same non-hardened indexes; in every state "
+            "the public node must equal the private node's public projection and the reference CKDpub with own curve arithmetic; "
+            "chosen PRF outputs force doubling and wrap corners; every hardened request on public data must raise and store nothing.",
+            "DESIGN.md §4 C02", "IL=0 under PRF substitution is excluded (not declared invalid by BIP32; ecdsa fallback refuses it on the public side)"),
 }
 
 NOT_YET = "check not built yet in this session (work in progress; see DESIGN.md §9 build order)"
